@@ -36,8 +36,18 @@ def job_roundtrip(ses, proto, fkind, akind):
                 ses.violation('%s: round trip fails - decrypt/verify of the authentic token %s' % (tag, what), m,
                               {'kind': 'roundtrip', 'proto': proto, 'fkind': fkind, 'akind': akind, 'model': m})
             if is_ok(rd):
-                okw, _ = ses.witness('%s: the accepting path is reachable' % tag, list(sd.pc))
+                vals = [getattr(inp, 'seed', inp.K), inp.N, utf8(inp.M), utf8(inp.F), utf8(inp.A)]
+                okw, wrec = ses.witness('%s: the accepting path is reachable' % tag, list(sd.pc), values=vals)
                 reached_ok = reached_ok or okw
+                if okw and not ses.__dict__.get('_native_done_' + tag):
+                    # the witness model is run through the real implementation: the model's prediction (accept, same message) must be what the library does
+                    from .. import replay as rp
+                    m = fmt_model(['key', 'nonce', 'message', 'footer', 'assertion'], wrec)
+                    out = rp.run_native(rp.script_roundtrip({'proto': proto, 'fkind': fkind, 'akind': akind, 'model': m}))
+                    ses.native_runs = getattr(ses, 'native_runs', 0) + 1; ses.__dict__['_native_done_' + tag] = True
+                    if out.get('violated') is not False:
+                        ses.undecided.append('%s: the implementation disagrees with the model on the witness input: %s' % (tag, str(out)[:300]))
+                    else: ses.samples.append({'native_witness': tag, 'inputs': m, 'library_result': 'round trip ok'})
         if not D: ses.undecided.append('%s: no decrypt path at all' % tag)
         ses.samples.append({'protocol': proto, 'footer': fkind, 'assertion': akind, 'token_term': str(simplify(T))[:400],
                             'decrypt_paths': [describe(r) for _, r in D]})
